@@ -37,6 +37,7 @@ def run(prog, chk):
     chk.rule(C03.writer_is_read_only, prog, chk)
     chk.rule(C03.top_level_predicate, prog, chk)
     chk.rule(C03.inner_events_guard, prog, chk)
+    chk.rule(C03.passthrough_one_to_one, prog, chk)  # the second pass hands the first pass' output on event by event
     chk.rule(C03.passthrough_str_ops, prog, chk)
     chk.rule(C02.no_double_hyphen_literals, prog, chk)  # an ill-formed generated comment makes the second pass fail
     chk.rule(C02.other_is_whole_input_event, prog, chk)  # every tag of the first pass' output went through the serialiser the second pass uses (nothing is emitted as written)
